@@ -348,6 +348,18 @@ func (g *pgen) stmt(indent, d int) {
 		}
 	case k == 13 && d > 0:
 		g.line(indent, "{")
+		if len(g.ints) > 0 && g.r.Intn(2) == 0 {
+			// a block that shadows a name of an enclosing scope, before or after it has read the outer one (directly, or through a nested block)
+			v := pick(g.r, g.ints...)
+			switch g.r.Intn(3) {
+			case 0:
+				g.line(indent+1, "print("+v+");")
+			case 1:
+				g.line(indent+1, "if "+v+" == "+v+" { print("+v+" + 1); }")
+			}
+			g.line(indent+1, "let "+v+" = "+g.numExpr(1)+";")
+			g.line(indent+1, "print("+v+");")
+		}
 		g.stmts(indent+1, 1+g.r.Intn(2), d-1)
 		g.line(indent, "}")
 	case k == 14:
@@ -430,6 +442,10 @@ func evalGen(r *rand.Rand, tier string, n int) []*wire.Case {
 	add("d-switch-continue", "let i = 0; while i < 3 { i = i + 1; switch i { case 1: print(10); continue; case 2: print(20); default: print(99); } print(i); }",
 		"let i = 0; while i < 4 { i = i + 1; switch i { case 2: continue; case 3: fallthrough; case 9: print(30); break; default: print(99); } print(i); }",
 		"for let i = 0; i < 3; i = i + 1 { switch { case i == 1: continue; default: print(7); } print(i); }", "fn f(x) { switch x { case 1: continue; default: return 5; } return 6; } print(f(1)); print(f(2));")
+	add("d-shadow-after-read", "let x = 1; { print(x); let x = 2; print(x); } print(x);", "let x = 1; { if x == 1 { print(x); } let x = 5; print(x); } print(x);",
+		"let g = 3; fn rd() { return g; } { print(rd()); let g = 9; print(g); print(rd()); } print(g);", "fn f() { return 1; } { print(f()); fn f() { return 2; } print(f()); } print(f());",
+		"let i0 = 7; for let k = 0; k < 2; k = k + 1 { print(i0); let i0 = k; print(i0); } print(i0);", "let w = 4; let n = 0; while n < 2 { n = n + 1; print(w); let w = n * 10; print(w); }",
+		"let a = 1; { { print(a); } let a = 2; { print(a); let a = 3; print(a); } print(a); } print(a);", "let s = 1; switch s { case 1: print(s); let s = 8; print(s); } print(s);")
 	add("d-compare", "print(1 < 2); print(2 <= 2); print(3 > 4); print(1 == 1.0); print(1 != 2); print(1 <> 1); print(2 && 0); print(0 || 0.0); print(0 || \"s\" == 1);")
 	add("d-errors", "print(1 / 0);", "print(1.0 / 0);", "print(\"a\" + 1);", "print(nope);", "fn f(a) { return a; } print(f());", "let a = 1; let a = 2;", "print(5 / (2 - 2));", "print(type(1)); print(type(\"s\")); print(type(null)); print(type([1])); print(type(print)); print(type(fn(){ return 1; }));")
 	add("d-fn-args", "let a = 1; let b = 2; fn second(b, a) { return a; } print(second(a, b)); print(second(b, a));",
